@@ -158,6 +158,15 @@ C14_Unique(c) == LET n == CaseStr(c)
 \* C14_Agree: attribute / namespace routes denote the same unit as the string
 C14_Agree(c, o, a) == (a.present /\ o.ok) => (a.ok /\ DenSet(a) = DenSet(o))
 C14_AttrDenote(c, a) == a.present => Denotes(a, DenOfReadings(CaseStr(c)))
+\* C14_SameUnit: "denotes the same unit whether reached by string, by attribute or through a custom registry's
+\* namespace" and "the same unit as its canonical spelling": the unit reached by another route (o = Unit(name), a = the
+\* other route: attribute, namespace entry, quantity unit, custom registry, canonical spelling as a string) is not merely
+\* equal by value but IS the same unit - built on the same symbol (sx: identical expressions, so products and ratios of
+\* the two combine and cancel) and, within one registry, with the same hash (sh: found in each other's sets / dict keys).
+\* WHICH symbol that is (the spelling, str()) is not demanded.  Not demanded either: the empty string - not a name; as a
+\* unit string it is documented to be the bare number 1 (no symbol at all), while name_alternatives lists it as a
+\* spelling of the symbol "dimensionless".
+C14_SameUnit(c, o, a) == (CaseStr(c) # "" /\ a.present /\ a.ok /\ o.ok) => (a.sx /\ a.sh)
 
 \* witness for reports: a reading (or split) of the string, as indices
 Witness(c) == LET n == CaseStr(c)
@@ -193,14 +202,19 @@ Resolve(n) == LET t == Rewrite(n) IN
               ELSE Lookup(UsedName(t))
 \* attribute of unyt.unit_symbols / top level / add_symbols namespace: Unit(canonical name) resp. Unit(that.expr, registry)
 ResolveAttr(n) == IF n \in InvDom THEN Lookup(InvAlt[n]) ELSE Raise
+\* the symbol a string is filed under after tokenizing (the key handed to _lookup_unit_symbol; the unit's expression is
+\* Symbol(that key)); attributes are Unit(canonical name) through the same parser, add_symbols copies unit.expr
+SymOf(n) == UsedName(Rewrite(n))
+SameSym(n) == n \in InvDom => SymOf(n) = SymOf(InvAlt[n])
 \* does an observation agree with the transition's outcome?
 TOk(m, o) == IF m.ok THEN Denotes(o, {<<m.i, m.e>>}) ELSE ~o.ok
 \* the transition's outcome as an observation (to evaluate the predicates on the model itself)
 AsObs(m) == [present |-> TRUE, ok |-> m.ok, den |-> IF m.ok THEN <<<<m.i, m.e>>>> ELSE <<>>]
 \* model-level verdicts: which clauses does the transcription itself break on this case?  (TLC: transitions => properties)
 ModelFails(c) == LET o == AsObs(Resolve(CaseStr(c))) IN
-                 {cl \in {"Accept", "Denote", "TableWins", "NonPrefixable", "NoDoublePrefix"} :
+                 {cl \in {"Accept", "Denote", "TableWins", "NonPrefixable", "NoDoublePrefix", "SameUnit"} :
                     ~(CASE cl = "Accept" -> C14_Accept(c, o)
+                        [] cl = "SameUnit" -> ((o.ok /\ CaseStr(c) # "") => SameSym(CaseStr(c)))
                         [] cl = "Denote" -> C14_Denote(c, o)
                         [] cl = "TableWins" -> C14_TableWins(c, o)
                         [] cl = "NonPrefixable" -> C14_NonPrefixable(c, o)
